@@ -14,7 +14,9 @@ from common import rq, enc_list, close
 REQUIRED = ['sum_mult_eq_replicate', 'sumIf_replicate', 'score_replicate', 'cellfit_replicate', 'saturated_fits_agree',
             'std_replicate', 'hajek_replicate', 'iptw_replicate', 'stoch_iptw_replicate', 'gformula_replicate',
             'gformula_replicate_targets', 'gtransport_replicate', 'aipw_replicate', 'aipw_missing_replicate',
-            'snm_replicate', 'survival_replicate']
+            'snm_replicate', 'survival_replicate',
+            # ties to the source: Props/C09_Snm.lean, Props/C09_Transport.lean
+            'snm_generated', 'snm_generated_replicate', 'gtransport_fit_generated_replicate']
 RULE = ('random data sets (1-3 categorical covariates, <= 8 strata, positivity by construction; outcome binary / normal '
         '/ count; outcomes complete, missing completely at random, or missing depending on A and L) with an integer '
         'weights column drawn from 1..4 (int or float dtype); every estimator is run with weights=<column> and, '
@@ -389,6 +391,13 @@ def model_case(drv, which, df, covs, o, nu, aux):
                          **rows_k(df, covs))
         if rep['status'] != 'ok':
             return None, False, rep
+        # the entries regenerated from _closed_form_solver_ / fit (Gen/Snm.lean) equal the hand-written model's, on both
+        # data sets (they are also part of the `same` flag: weighted == replicated)
+        gen_ok = all(rep.get('%s_gl%d%d' % (t, j, k)) == rep['%s_l%d%d' % (t, j, k)] for t in 'wr'
+                     for j in range(nv) for k in range(nv)) and \
+            all(rep.get('%s_gr%d' % (t, j)) == rep['%s_r%d' % (t, j)] for t in 'wr' for j in range(nv))
+        if not gen_ok:
+            return None, False, dict(rep, status='err generated lhm/rha differ from the model')
         if nv == 1:
             me = {'psi0': F(rep['w_psi1'])}
         else:           # exact 2x2 solve of the model's lhm / rha (np.linalg.solve is the external)
@@ -404,6 +413,9 @@ def model_case(drv, which, df, covs, o, nu, aux):
             return None, False, rep
         r1, r0 = F(rep['w_r1']), F(rep['w_r0'])
         me = {'RD': r1 - r0, 'RR': r1 / r0}
+        # the definition regenerated from GTransportFormula.fit (Gen/Transport.lean) returns the same pair
+        if not ('w_grd' in rep and F(rep['w_grd']) == me['RD'] and F(rep['w_grr']) == me['RR']):
+            return None, False, dict(rep, status='err generated gtransport_fit differs from the model')
     else:
         return None, False, {'status': 'err'}
     small = {k: v for k, v in rep.items() if len(v) < 60}
